@@ -176,15 +176,27 @@ def fits_array2d_file_roundtrip(values, mask, flip, pixel_scale, origin, as_path
     with _Env(flip) as env:
         mk = aa.Mask2D(mask=mask.copy(), pixel_scales=pixel_scale, origin=origin)
         want = np.where(mask, 0.0, values)
-        for store_native in (False, True):
+        base_want = want
+        for store_native, derived in ((False, False), (True, False), (True, True), (False, True)):
             arr = aa.Array2D(values=values.copy(), mask=mk, store_native=store_native)
-            fp = env.path("sub%d" % store_native, "arr.fits", as_path=as_path)
+            want = base_want
+            if derived:
+                # "a masked array": also one that came out of arithmetic (its raw storage then holds non-zero numbers at masked
+                # pixels; the array written is its native form)
+                arr = (arr + 3.5) * 2.0
+                want = np.where(mask, 0.0, (values + 3.5) * 2.0)
+            fp = env.path("sub%d%d" % (store_native, derived), "arr.fits", as_path=as_path)
             arr.output_to_fits(file_path=fp)
             back = aa.Array2D.from_fits(file_path=fp, pixel_scales=pixel_scale, origin=origin, hdu=0)
             if tuple(back.shape_native) != values.shape:
                 return "shape changed: %r vs %r" % (tuple(back.shape_native), values.shape)
             if not _same(back.native, want):
-                return "flip=%s store_native=%s: native values differ: %r vs %r" % (flip, store_native, np.asarray(back.native), want)
+                return "flip=%s store_native=%s%s: native values differ: %r vs %r" % (
+                    flip, store_native, " (array = (a + 3.5) * 2)" if derived else "", np.asarray(back.native), want)
+            hb = aa.Array2D.from_primary_hdu(primary_hdu=arr.hdu_for_output, origin=origin)
+            if not _same(hb.native, want):
+                return "flip=%s store_native=%s%s: hdu_for_output holds %r, the native form is %r" % (
+                    flip, store_native, " (array = (a + 3.5) * 2)" if derived else "", np.asarray(hb.native), want)
             if not _scales_equal([back.header.header_sci_obj["PIXSCALE"]], (pixel_scale,)):
                 return "PIXSCALE card %r != pixel scale %r" % (back.header.header_sci_obj["PIXSCALE"], pixel_scale)
             if not _scales_equal(back.pixel_scales, (pixel_scale, pixel_scale)) or tuple(back.origin) != tuple(origin):
